@@ -326,3 +326,10 @@ def r9(rr, repo):
 def r10(rr, repo):
     from .c06 import r2 as c06r2
     c06r2(rr, repo)
+
+
+@rule('C03.R11', 'a consumer sees exactly the subscribed part of what upstream produced: the subscription prefix selects whole topic names (wire encoding shared by publisher, subscriber prefix and decoder - shares C02.R5) and hidden topics stay out of subscribe-all sets (shares C02.R6)')
+def r11(rr, repo):
+    from .c02 import r5 as c02r5, r6 as c02r6
+    c02r5(rr, repo)
+    c02r6(rr, repo)
